@@ -97,6 +97,9 @@ def deep(tr, emissions: int = 0) -> dict:
         "annotators": sorted((k, bool(on)) for k, (_, on) in tr.annotators.all_features.items()),
         "tracklets": {} if ta is None else {k: sorted(v) for k, v in ta.tracklet_id_to_nodes.items() if v},
         "lineages": {} if ta is None else {k: sorted(v) for k, v in ta.lineage_id_to_nodes.items() if v},
+        # keys of the lookups including entries with empty lists: an entry that lists nothing
+        # is harmless for C06, but a read-only call that adds one has modified the lookup
+        "lookup_keys": None if ta is None else (sorted(ta.tracklet_id_to_nodes, key=repr), sorted(ta.lineage_id_to_nodes, key=repr)),
         "undo": tuple(id(a) for a in tr.action_history.undo_stack),
         "redo": tuple(id(a) for a in tr.action_history.redo_stack),
         "emissions": emissions,
